@@ -8,6 +8,7 @@ import (
 	"go/token"
 	"go/types"
 	"os"
+	"path/filepath"
 	"regexp"
 	"sort"
 	"strconv"
@@ -536,6 +537,11 @@ func Load(cfg LoadConfig) (*Prog, error) {
 		return p, nil
 	}
 	p2.Inlined, p2.NotInl = inlined, left
+	if d := os.Getenv("TABLELINT_DUMP_NORMALISED"); d != "" {
+		for k, v := range cfg2.Overlay {
+			os.WriteFile(filepath.Join(d, strings.ReplaceAll(strings.TrimPrefix(k, "/"), "/", "_")), v, 0o644)
+		}
+	}
 	p2.Cfg = cfg
 	return p2, nil
 }
